@@ -13,7 +13,7 @@
      d_need_props / d_need_dict_reset   the two flags of LZMA2Reader.
    The range decoder is not part of the state: rc.prepare() re-initialises it in every LZMA chunk
    and at a chunk boundary it is always "finished" (checked at the end of every chunk). *)
-From LzVerif Require Export Mt.Units Codec.Lzma2Dec Codec.LzmaAbs.
+From LzVerif Require Export Mt.Units Codec.Lzma2Dec Codec.LzmaAbs Codec.LzmaWriters.
 Local Open Scope Z_scope.
 
 Record dstate := mkD {
@@ -155,3 +155,17 @@ Definition l2_decodes (input : list Z) (dict : Z) (preset : option (list Z)) (da
 
 (* the buffer size LZMA2Reader::new allocates (get_dict_size) *)
 Definition l2_wsize (dict : Z) : Z := (Z.min (Z.max dict 4096) 4294967280 + 15) / 16 * 16.
+
+(* ------------------------------------------------------------------------------------------ *)
+(* one work unit of LZMA2WriterMT: the worker's LZMA2Writer (fresh, options without preset
+   dictionary) is fed the unit's [data] and flushed; [body] is what it wrote - the writer model's
+   stream (Codec/LzmaWriters.v, any trace [evs] of encoder decisions the model accepts) without
+   the end marker that finish() would append.  The coordinator writes the bodies in order and
+   one 0x00 at the end. *)
+Definition mt_unit_written (lc lp pb dict : Z) (u : list Z * list l2ev * list Z) : Prop :=
+  let '(data, evs, body) := u in
+  bytes_ok data = true /\ bytes_ok body = true /\ (forall ev, In ev evs -> ev <> L2Sym SEnd) /\
+  lzma2_write lc lp pb dict None data evs = Ok (body ++ [0]).
+
+Definition mt_bodies (us : list (list Z * list l2ev * list Z)) : list Z := concat (map snd us).
+Definition mt_data (us : list (list Z * list l2ev * list Z)) : list Z := concat (map (fun u => fst (fst u)) us).
